@@ -15,13 +15,18 @@
 (*   Snapshot/Merge   LocalState -> MergeRemoteState (push/pull): the only   *)
 (*                    writer of remoteNodeStates                             *)
 (*   Leave/NotifyLeave shardEventDelegate.NotifyLeave deletes the peer state *)
+(*   Join(a)          a Late instance joins: the joiner's half of the        *)
+(*                    push/pull (it merges every member's state) happens at  *)
+(*                    once, the members' half (they merge its state) is a    *)
+(*                    state push in flight like any other: until then the    *)
+(*                    members do not hold the joiner's state                 *)
 (*                                                                          *)
 (* Route(j, sh, haveLocal, addr, peerStream) transcribes the decision of     *)
 (* DeliverMessagesToShardOwner / DeliverAckToShardOwner.                     *)
 (***************************************************************************)
 EXTENDS Integers, FiniteSets, TLC
 
-CONSTANTS Inst, Sh, MaxClaims, MaxDup, MaxSnap, AllowLeave, AllowRelease, TsFix
+CONSTANTS Inst, Sh, MaxClaims, MaxDup, MaxSnap, AllowLeave, AllowRelease, TsFix, Late, NeedKnown
 None == [sh \in Sh |-> -1]      \* "no entry" (a function, so that it compares with snapshots)
 NoShards == [sh \in Sh |-> 0]
 
@@ -34,12 +39,14 @@ VARIABLES clock,
   left, leaveEv,
   lastClaim,  \* history: [Inst -> [Sh -> ts of the instance's latest claim (kept after release; 0 after leave)]]
   held,       \* history: [Inst -> [Sh -> the instance has not released that claim itself]]
-  nclaims, dups, nsnaps
-vars == <<clock, local, pend, msgs, remote, snaps, left, leaveEv, lastClaim, held, nclaims, dups, nsnaps>>
+  nclaims, dups, nsnaps,
+  joined      \* instances that are members of the memberlist cluster (Inst \ Late at the start)
+vars == <<clock, local, pend, msgs, remote, snaps, left, leaveEv, lastClaim, held, nclaims, dups, nsnaps, joined>>
 
 Init == /\ clock = 0 /\ local = [i \in Inst |-> NoShards] /\ pend = [i \in Inst |-> {}] /\ msgs = {}
         \* everybody has merged everybody's (empty) state: "instances that know each other"
-        /\ remote = [j \in Inst |-> [i \in Inst |-> IF i = j THEN None ELSE NoShards]]
+        /\ remote = [j \in Inst |-> [i \in Inst |-> IF i = j \/ i \in Late \/ j \in Late THEN None ELSE NoShards]]
+        /\ joined = Inst \ Late
         /\ snaps = {} /\ left = {} /\ leaveEv = {} /\ lastClaim = [i \in Inst |-> NoShards]
         /\ held = [i \in Inst |-> [sh \in Sh |-> FALSE]]
         /\ nclaims = 0 /\ dups = 0 /\ nsnaps = 0
@@ -47,7 +54,11 @@ Init == /\ clock = 0 /\ local = [i \in Inst |-> NoShards] /\ pend = [i \in Inst 
 Known(i) == {j \in Inst : j # i /\ remote[i][j] # None}
 
 NoPend(i, sh, type) == ~\E a \in pend[i] : a.sh = sh /\ a.type = type
+\* the property is about announcements that reach every other instance: an instance claims only while it holds the state of
+\* every other member (its announcements go to the peers in remoteNodeStates)
+KnowsAll(i) == \A k \in joined \ (left \cup {i}) : remote[i][k] # None
 Claim(i, sh) ==
+  /\ i \in joined /\ KnowsAll(i)
   /\ i \notin left /\ nclaims < MaxClaims /\ local[i][sh] = 0 /\ NoPend(i, sh, "register")
   /\ clock' = clock + 1 /\ nclaims' = nclaims + 1
   /\ local' = [local EXCEPT ![i][sh] = clock + 1] /\ lastClaim' = [lastClaim EXCEPT ![i][sh] = clock + 1]
@@ -73,12 +84,16 @@ Deliver(m, keep) ==
   /\ m \in msgs /\ (keep => dups < MaxDup)
   /\ msgs' = (IF keep THEN msgs ELSE msgs \ {m}) /\ dups' = (IF keep THEN dups + 1 ELSE dups)
   /\ LET j == m.to
+         \* NeedKnown: a (wrong) variant that ignores announcements of peers whose state it does not hold - kept to show
+         \* that the join schedules decide it (g_join2_needknown.cfg violates SingleNewestOwner)
          evict == j \notin left /\ m.type = "register" /\ local[j][m.sh] # 0 /\ local[j][m.sh] < m.ts
+                  /\ (NeedKnown => remote[j][m.from] # None)
      IN /\ local' = (IF evict THEN [local EXCEPT ![j][m.sh] = 0] ELSE local)
         /\ pend' = (IF evict THEN [pend EXCEPT ![j] = @ \cup {[type |-> "unregister", sh |-> m.sh, cts |-> 0]}] ELSE pend)
   /\ UNCHANGED <<clock, remote, snaps, left, leaveEv, lastClaim, held, nclaims, nsnaps>>
 
 Snapshot(i, j) ==
+  /\ i \in joined /\ j \in joined
   /\ i # j /\ i \notin left /\ j \notin left /\ nsnaps < MaxSnap
   /\ snaps' = snaps \cup {[from |-> i, to |-> j, val |-> local[i], id |-> nsnaps]} /\ nsnaps' = nsnaps + 1
   /\ UNCHANGED <<clock, local, pend, msgs, remote, left, leaveEv, lastClaim, held, nclaims, dups>>
@@ -88,6 +103,7 @@ Merge(s) ==
   /\ UNCHANGED <<clock, local, pend, msgs, left, leaveEv, lastClaim, held, nclaims, dups, nsnaps>>
 
 Leave(i) ==
+  /\ i \in joined
   /\ AllowLeave /\ left = {} /\ i \notin left /\ pend[i] = {}
   /\ left' = left \cup {i} /\ leaveEv' = leaveEv \cup {<<i, j>> : j \in Inst \ {i}}
   /\ local' = [local EXCEPT ![i] = NoShards]
@@ -98,11 +114,21 @@ NotifyLeave(e) ==
   /\ remote' = [remote EXCEPT ![e[2]][e[1]] = None]
   /\ UNCHANGED <<clock, local, pend, msgs, snaps, left, lastClaim, held, nclaims, dups, nsnaps>>
 
-Next == \/ \E i \in Inst, sh \in Sh : Claim(i, sh) \/ Release(i, sh)
-        \/ \E i \in Inst : (\E a \in pend[i] : Announce(i, a)) \/ Leave(i) \/ \E j \in Inst : Snapshot(i, j)
-        \/ \E m \in msgs : Deliver(m, TRUE) \/ Deliver(m, FALSE)
-        \/ \E s \in snaps : Merge(s)
-        \/ \E e \in leaveEv : NotifyLeave(e)
+Join(a) ==
+  /\ a \in Late \ joined /\ a \notin left
+  /\ joined' = joined \cup {a}
+  /\ remote' = [remote EXCEPT ![a] = [k \in Inst |-> IF k \in joined \ left THEN local[k] ELSE None]]
+  /\ snaps' = snaps \cup {[from |-> a, to |-> k, val |-> local[a], id |-> nsnaps] : k \in joined \ left}
+  /\ nsnaps' = nsnaps + 1
+  /\ UNCHANGED <<clock, local, pend, msgs, left, leaveEv, lastClaim, held, nclaims, dups>>
+
+J(A) == A /\ UNCHANGED joined
+Next == \/ J(\/ \E i \in Inst, sh \in Sh : Claim(i, sh) \/ Release(i, sh)
+             \/ \E i \in Inst : (\E a \in pend[i] : Announce(i, a)) \/ Leave(i) \/ \E j \in Inst : Snapshot(i, j)
+             \/ \E m \in msgs : Deliver(m, TRUE) \/ Deliver(m, FALSE)
+             \/ \E s \in snaps : Merge(s)
+             \/ \E e \in leaveEv : NotifyLeave(e))
+        \/ \E a \in Inst : Join(a)
 Spec == Init /\ [][Next]_vars
 
 (* ---------------- C09 ----------------------------------------------------- *)
